@@ -398,4 +398,18 @@ example : Generated.ansInitAgrees (Generated.ans_read_init ⟨0, 0⟩ (Generated
     (ansReadInit ([9] ++ [64, 64])) :=
   source_ansReadInit_is_model_x1 _ [9] 64 64 (by decide) (by decide) (by decide) (by decide) (by decide)
 
+open Generated in
+/-- `DecodeVarintUnsigned<uint32_t>` / `<uint64_t>` as a whole — `buffer->Decode(&in)` as a byte source with a position, the
+    recursion unrolled with fuel `max_depth + 1` — is the model's `decVarint 32` / `decVarint 64`: it fails exactly when the
+    model does; otherwise it stores the model's value and leaves the model's rest of the stream -/
+theorem source_decodeVarint_is_model (v0 : Int) (bs : List Nat) (hb : ∀ b ∈ bs, b < 256) :
+    (match decVarint 32 bs with
+     | none => ∃ v' r', DecodeVarintUnsigned_u32 6 1 v0 (bs.map Int.ofNat) = some (false, v', r')
+     | some (v, rest) => DecodeVarintUnsigned_u32 6 1 v0 (bs.map Int.ofNat) = some (true, (v : Int), rest.map Int.ofNat)) ∧
+    (match decVarint 64 bs with
+     | none => ∃ v' r', DecodeVarintUnsigned_u64 11 1 v0 (bs.map Int.ofNat) = some (false, v', r')
+     | some (v, rest) => DecodeVarintUnsigned_u64 11 1 v0 (bs.map Int.ofNat) = some (true, (v : Int), rest.map Int.ofNat)) :=
+  ⟨DecodeVarintUnsigned_u32_eq_model v0 bs hb, DecodeVarintUnsigned_u64_eq_model v0 bs hb⟩
+example : Generated.DecodeVarintUnsigned_u32 6 1 0 [172, 2, 9] = some (true, 300, [9]) := by decide
+
 end Draco.C17
